@@ -17,7 +17,7 @@ def tup(x):
     return tuple(tup(y) for y in x) if isinstance(x, list) else x
 
 
-def check_pair(acc, s1, s2, depth, sch1='s', sch2='r', routines=ROUTINES, only=None):
+def check_pair(acc, s1, s2, depth, sch1='s', sch2='r', routines=ROUTINES, only=None, logging=False, morph=False):
     A = common.ref_of_dfa_spec(s1, sch1)
     B = common.ref_of_dfa_spec(s2, sch2)
     exp = fa.iso(A, B)
@@ -32,11 +32,22 @@ def check_pair(acc, s1, s2, depth, sch1='s', sch2='r', routines=ROUTINES, only=N
         f = routine(name)
 
         def execute(boost, native=False):
-            rp = {'fn': 'mc.props.c20:one', 'mode': 'instr', 'params': {'s1': s1, 's2': s2, 'sch1': sch1, 'sch2': sch2, 'routine': name, 'boost': list(boost), 'native': native}}
-            inst = {'D1': s1, 'D2': s2, 'names': [sch1, sch2], 'routine': name, 'schedule': 'native' if native else {'boost': list(boost)}}
-            D1 = spaces.build_dfa(s1, sch1)
-            D2 = spaces.build_dfa(s2, sch2)
-            st, got = common.sched_call(acc, name, inst, f, D1, D2, boost=boost, native=native, budget=BUDGET, rp=rp)
+            from gambatools.global_settings import GambaTools
+            rp = {'fn': 'mc.props.c20:one', 'mode': 'instr', 'params': {'s1': s1, 's2': s2, 'sch1': sch1, 'sch2': sch2, 'routine': name, 'boost': list(boost), 'native': native, 'logging': logging}}
+            inst = {'D1': s1, 'D2': s2, 'names': [sch1, sch2], 'routine': name, 'logging': logging, 'schedule': 'native' if native else {'boost': list(boost)}}
+            if morph:
+                rp = {'fn': 'mc.props.c20:t_morph', 'mode': 'instr', 'params': dict(acc.data.get('ctx', {}), upto=[s1, s2])}
+                inst['presented_as'] = 'two live DFA objects rewritten in place after earlier comparisons'
+                D1 = morph2(0, s1, sch1)
+                D2 = morph2(1, s2, sch2)
+            else:
+                D1 = spaces.build_dfa(s1, sch1)
+                D2 = spaces.build_dfa(s2, sch2)
+            GambaTools.enable_logging = logging
+            try:
+                st, got = common.sched_call(acc, name, inst, f, D1, D2, boost=boost, native=native, budget=BUDGET, rp=rp)
+            finally:
+                GambaTools.enable_logging = False
             if st == 'ok':
                 acc.evals += 1
                 acc.validated += 1
@@ -52,11 +63,51 @@ def check_pair(acc, s1, s2, depth, sch1='s', sch2='r', routines=ROUTINES, only=N
         common.explore(acc, execute, depth)
 
 
-def one(acc, s1, s2, sch1, sch2, routine, boost=(), native=False):
-    check_pair(acc, s1, s2, 0, sch1, sch2, (routine,), only=(boost, native))
+_LIVE2 = {}
 
 
-def t_pairs(acc, n1, n2, k, depth, shard, nshard, stride=1, offset=0, sch2='r'):
+def morph2(slot, spec, scheme):
+    """Two live DFA objects (slot 0 / 1) rewritten in place."""
+    from gambatools.dfa import DFA
+    Q, Sg, delta, q0, F = spaces.dfa_parts(spec, scheme)
+    D = _LIVE2.get(slot)
+    if D is None:
+        D = _LIVE2[slot] = DFA(set(Q), set(Sg), dict(delta), q0, set(F))
+        return D
+    D.Q.clear(); D.Q.update(Q)
+    D.Sigma.clear(); D.Sigma.update(Sg)
+    D.delta.clear(); D.delta.update(delta)
+    D.q0 = q0
+    D.F.clear(); D.F.update(F)
+    return D
+
+
+def t_morph(acc, n1, n2, k, shard, nshard, upto=None):
+    def tl(x):
+        return tuple(tl(y) for y in x) if isinstance(x, list) else x
+    upto = tl(upto) if upto is not None else None
+    _LIVE2.clear()
+    acc.data['ctx'] = {'n1': n1, 'n2': n2, 'k': k, 'shard': shard, 'nshard': nshard}
+    size2 = spaces.dfa_size(n2, k)
+    total = spaces.dfa_size(n1, k) * size2
+    # a stride that is coprime to both sizes walks through very different pairs back to back
+    step = 37
+    idx = shard
+    for _ in range(total // nshard):
+        i = (idx * step) % total
+        s1, s2 = spaces.dfa_spec(n1, k, i // size2), spaces.dfa_spec(n2, k, i % size2)
+        check_pair(acc, s1, s2, 0, 's', 'r', morph=True)
+        if upto is not None and (s1, s2) == upto:
+            break
+        idx += nshard
+    acc.data.clear()
+
+
+def one(acc, s1, s2, sch1, sch2, routine, boost=(), native=False, logging=False):
+    check_pair(acc, s1, s2, 0, sch1, sch2, (routine,), only=(boost, native), logging=logging)
+
+
+def t_pairs(acc, n1, n2, k, depth, shard, nshard, stride=1, offset=0, sch2='r', logging=False):
     size2 = spaces.dfa_size(n2, k)
     total = spaces.dfa_size(n1, k) * size2
     cnt = 0
@@ -64,15 +115,15 @@ def t_pairs(acc, n1, n2, k, depth, shard, nshard, stride=1, offset=0, sch2='r'):
         cnt += 1
         if cnt % nshard != shard:
             continue
-        check_pair(acc, spaces.dfa_spec(n1, k, idx // size2), spaces.dfa_spec(n2, k, idx % size2), depth, 's', sch2)
+        check_pair(acc, spaces.dfa_spec(n1, k, idx // size2), spaces.dfa_spec(n2, k, idx % size2), depth, 's', sch2, logging=logging)
 
 
 def plan(tier, seed):
     tasks = []
 
-    def pairs(n1, n2, k, depth, nshard, stride=1, sch2='r'):
+    def pairs(n1, n2, k, depth, nshard, stride=1, sch2='r', logging=False):
         for s in range(nshard):
-            tasks.append(('instr', 'mc.props.c20:t_pairs', {'n1': n1, 'n2': n2, 'k': k, 'depth': depth, 'shard': s, 'nshard': nshard, 'stride': stride, 'offset': seed, 'sch2': sch2}))
+            tasks.append(('instr', 'mc.props.c20:t_pairs', {'n1': n1, 'n2': n2, 'k': k, 'depth': depth, 'shard': s, 'nshard': nshard, 'stride': stride, 'offset': seed, 'sch2': sch2, 'logging': logging}))
 
     d = 1 if tier == 'quick' else 2
     for k in (0, 1, 2):
@@ -83,6 +134,14 @@ def plan(tier, seed):
                 else:
                     pairs(n1, n2, k, 2, 1)
     pairs(2, 2, 1, 2, 1, sch2='s')
+    pairs(2, 2, 1, 1, 1, logging=True)
+    pairs(2, 2, 2, 0, 8, stride=4, logging=True)
+    pairs(3, 2, 1, 0, 2, logging=True)
+    for s_ in range(2):
+        tasks.append(('instr', 'mc.props.c20:t_morph', {'n1': 2, 'n2': 2, 'k': 1, 'shard': s_, 'nshard': 2}))
+    for s_ in range(8):
+        tasks.append(('instr', 'mc.props.c20:t_morph', {'n1': 2, 'n2': 2, 'k': 2, 'shard': s_, 'nshard': 8}))
+        tasks.append(('instr', 'mc.props.c20:t_morph', {'n1': 3, 'n2': 2, 'k': 1, 'shard': s_, 'nshard': 8}))
     pairs(1, 1, 1, 2, 1, sch2='s')
     pairs(1, 2, 1, 2, 1, sch2='s')
     if tier == 'quick':
@@ -103,4 +162,4 @@ def plan(tier, seed):
         bounds = 'ordered pairs DFA(n<=2,k<=2)^2 all d<=2; DFA(n<=3,1)^2 all (465 124) d<=1 (d<=2 when one side has <= 2 states); DFA(3,2)xDFA(2,2) stride 1/8 d<=1; DFA(3,2)^2 stride 1/1024 d<=1'
     return {'tasks': tasks, 'bounds': {'spaces': bounds, 'step_budget': BUDGET}, 'exhaustive': True,
             'rule': 'ordered pairs of labelled DFAs over the same alphabet (second operand renamed r0.. or with identical names) x both routines x one execution under CPython order + every execution with <= d set-order deviations, loop-iteration budget as termination oracle; non-trivial = equivalent-but-not-isomorphic pairs and isomorphic pairs with unreachable states',
-            'assumptions': ['termination = result within {} loop iterations (largest count seen on a terminating run is in maxima)'.format(BUDGET), 'set order = global order per execution (DESIGN 3.4)']}
+            'assumptions': ['termination = result within {} loop iterations (largest count seen on a terminating run is in maxima)'.format(BUDGET), 'set order = global order per execution (DESIGN 3.4)', 'state names are distinct str objects with equal content (as parsers produce them)', 'small pair spaces also with GambaTools.enable_logging = True and through two live DFA objects rewritten in place']}
